@@ -301,7 +301,7 @@ theorem exEnv_A1 : ∀ k, acctOf exEnv k ≠ exEnv.notary := by
 -- is the last of an epoch of the two-member committee
 example :
     let s0 := step (initSt exEnv ((genesis exEnv 0 1000).getD {})) .postPersist
-    let bs : List Blk := [⟨0, [], [], [.txBegin 0 [⟨0, 128, []⟩], .register 12, .txEnd false]⟩, ⟨0, [], [], []⟩]
+    let bs : List Blk := [⟨0, [], [], [.txBegin 0 [⟨0, 128, [], []⟩], .register 12 none, .txEnd false]⟩, ⟨0, [], [], []⟩]
     (∀ b ∈ bs, b.ok) ∧ (runChain s0 bs).panicked = false ∧ (runChain s0 bs).env.index = 2 ∧
     (runChain s0 bs).cur.cands = [(12, ⟨true, 0⟩)] := by
   refine ⟨?_, ?_, ?_, ?_⟩
@@ -492,7 +492,7 @@ theorem covered_test_sound (nt : Nat) (e : Env) (l : Ledger) (b : Blk) (hi : Inv
 -- block: both covered
 example :
     let s0 := step (initSt exEnv ((genesis exEnv 0 1000).getD {})) .postPersist
-    let b1 : Blk := ⟨0, [], [⟨0, 40, 30, none, none⟩], [.txBegin 0 [⟨0, 128, []⟩], .register 12, .txEnd false]⟩
+    let b1 : Blk := ⟨0, [], [⟨0, 40, 30, none, none⟩], [.txBegin 0 [⟨0, 128, [], []⟩], .register 12 none, .txEnd false]⟩
     let s1 := run s0 (b1.ops 1)
     owedBy 0 b1.txs = 70 ∧ at0 id (step s0 (.block 1)).cur.gas 0 = 1000 ∧ primaryFee exEnv b1.txs = 30 ∧
     coveredB exEnv (step s0 (.block 1)).cur b1.pidx b1.txs = true ∧
@@ -501,13 +501,15 @@ example :
 /-! ## witnesses -/
 
 /-- `witness_rule`: the model's witness decision (runtime.CheckHashedWitness + checkScope for the scopes None,
-CalledByEntry, CustomContracts, Global) accepts exactly the calling contract itself, or the first signer with the
-account when its scope is Global, or contains CalledByEntry and the call is made by the entry script, or contains
-CustomContracts and the called native contract is listed. -/
+CalledByEntry, CustomContracts, CustomGroups, Rules, Global) accepts exactly the calling contract itself, or the first
+signer with the account when its scope is Global, or contains CalledByEntry and the call is made by the entry script,
+or contains CustomContracts and the called native contract is listed, or contains Rules and the first witness rule
+whose condition matches is an Allow rule (CustomGroups never witnesses: no contract of a case has groups). -/
 theorem witness_rule (e : Env) (acc : Nat) (caller : Option Nat) (cur : Nat) :
     witOf e acc caller cur = true ↔
       (caller = some acc ∨ ∃ sg, e.signers.find? (fun sg => sg.acc == acc) = some sg ∧ caller ≠ some acc ∧
-        (sg.scopes = 128 ∨ (sg.scopes &&& 1 ≠ 0 ∧ caller = none) ∨ (sg.scopes &&& 16 ≠ 0 ∧ cur ∈ sg.allowed))) :=
+        (sg.scopes = 128 ∨ (sg.scopes &&& 1 ≠ 0 ∧ caller = none) ∨ (sg.scopes &&& 16 ≠ 0 ∧ cur ∈ sg.allowed) ∨
+          (sg.scopes &&& 64 ≠ 0 ∧ rulesAllow caller cur sg.rules = true))) :=
   witOf_iff e acc caller cur
 
 /-- `unwitnessed_call_no_effect`: a native call (transfer, vote, unregisterCandidate, lockDepositUntil, withdraw,
@@ -521,15 +523,43 @@ theorem unwitnessed_call_no_effect (s : St) (op : Op) (h : op.witness s = some f
 -- through contract 50 is not (and changes nothing); a fee-only signer (scope None) never witnesses
 example :
     let e : Env := { notary := 90, neoC := 91, gasC := 92, csize := 1, vcount := 1, attrFee := 0,
-                     signers := [⟨3, 1, []⟩, ⟨4, 0, []⟩, ⟨5, 16, [92]⟩] }
+                     signers := [⟨3, 1, [], []⟩, ⟨4, 0, [], []⟩, ⟨5, 16, [92], []⟩] }
     witOf e 3 none 92 = true ∧ witOf e 3 (some 50) 92 = false ∧ witOf e 4 none 92 = false ∧
     witOf e 5 (some 50) 92 = true ∧ witOf e 5 (some 50) 91 = false ∧ witOf e 50 (some 50) 92 = true := by decide
+-- rules: "deny when called by contract 50, else allow for the GAS contract": the first matching rule decides
 example :
-    let e : Env := { notary := 90, neoC := 91, gasC := 92, csize := 1, vcount := 1, attrFee := 0, signers := [⟨3, 1, []⟩] }
+    let e : Env := { notary := 90, neoC := 91, gasC := 92, csize := 1, vcount := 1, attrFee := 0,
+                     signers := [⟨3, 64, [], [(false, .calledByContract 50), (true, .scriptHash 92)]⟩, ⟨4, 32, [], []⟩] }
+    witOf e 3 none 92 = true ∧ witOf e 3 (some 50) 92 = false ∧ witOf e 3 none 91 = false ∧
+    witOf e 3 (some 51) 92 = true ∧ witOf e 4 none 92 = false := by decide
+example :
+    let e : Env := { notary := 90, neoC := 91, gasC := 92, csize := 1, vcount := 1, attrFee := 0, signers := [⟨3, 1, [], []⟩] }
     let l : Ledger := { gas := [(3, 10)], gasSupply := 10 }
     let s : St := initSt e l
     (Op.transfer .gas 3 4 5 (some 50) .none .other).witness s = some false ∧
     (exec s (.transfer .gas 3 4 5 (some 50) .none .other)).cur.gas = [(3, 10)] ∧
     (exec s (.transfer .gas 3 4 5 none .none .other)).cur.gas = [(3, 5), (4, 5)] := by decide
+
+/-! ## contracts blocked by Policy -/
+
+/-- `blocked_contract_not_callable`: once Policy has blocked a contract, a call the entry script makes through it
+faults the transaction (the ledger of the transaction's start comes back), and so does a payment to it that would run
+its callback. -/
+theorem blocked_contract_not_callable (s : St) (op : Op) (h : callerBlocked s op = true) (hs : s.skip = 0) :
+    step s op = s.throw := by
+  unfold step
+  rw [if_neg (by omega), if_pos h]
+
+-- non-vacuity: contract 50 holds 10 GAS and is blocked: a transfer it is asked to make faults, a payment to it with a
+-- callback faults, a payment without callback classification (plain account semantics) would not
+example :
+    let e : Env := { notary := 90, neoC := 91, gasC := 92, csize := 1, vcount := 1, attrFee := 0, signers := [⟨3, 128, [], []⟩] }
+    let l : Ledger := { gas := [(3, 10), (50, 10)], gasSupply := 20, blocked := [50] }
+    let s : St := initSt e l
+    callerBlocked s (.transfer .gas 50 3 5 (some 50) .none .other) = true ∧
+    (step s (.transfer .gas 50 3 5 (some 50) .none .other)).failing = true ∧
+    (step s (.transfer .gas 3 50 5 none .accept .other)).failing = true ∧
+    (step { s with cur := { l with blocked := [] } } (.transfer .gas 3 50 5 none .accept .other)).cur.gas = [(3, 5), (50, 15)] := by
+  decide
 
 end NeoModel.Tokens
